@@ -1,6 +1,8 @@
 import PelGen.GenPeltool
 import PelProofs.TiePeltool
 import PelProofs.TieDispatch
+import PelGen.GenOutput
+import PelProofs.TieOutput
 import PelProps.C01
 /-
   Source tie for C01 (stream `peltool`): `parseHeader` and `getSectionName` of peltool.py, regenerated from the source text
@@ -131,5 +133,72 @@ theorem frame_section_dispatch (g : Env → Text → SecHdr → Rd (Text × J)) 
     (Pel.parseHeader >>= fun h => g env creator h) (sec.enc ++ rest) = .ok ((gn env.T sec.body.id, j), rest) := by
   rw [sectionFun_decodeOne g hg]
   exact frame_section gn hn env creator sec hs j hr rest
+
+/-! ### stream `output` (harness/trans_output.py, PelGen/GenOutput.lean): `buildOutput`, regenerated from the source text, is the
+    model's `buildOutput` (PelModel/Pel.lean) — the numbering C01's ★`numbering_rule` and `entries` are about.
+
+    The Python function makes two passes over `range(len(sections))` with a dictionary `counts[name] = [occurrences, next number]`
+    that it updates in place; the generated term is the same program in state-passing form (PelModel/TransOutput.lean: `none` =
+    IndexError / KeyError).  The model counts with `countName` and keeps the next numbers in an association list.  The tie is proved
+    with two loop invariants (PelProofs/TieOutput.lean: `CountsInv`, `OutInv`).  The sections are the one-member dictionaries
+    `sectionFun` leaves in each fresh `OrderedDict` (Tie.sectionFun: `namedBy`), hence `secs.map fun p => [p]`. -/
+
+set_option linter.unusedVariables false in
+/-- `buildOutput(sections, out)`: count the names, then store every section under its bare name if the name occurs once and under
+    `name + ' ' + str(k)` otherwise, k = 0, 1, 2 … per name in order of appearance -/
+theorem buildOutput (g : List (List (Text × J)) → List (Text × J) → Option (List (Text × J))) (h : Gen.buildOutput? = some g) :
+    (fun (secs : List (Text × J)) (out : List (Text × J)) => g (secs.map fun p => [p]) out) =
+      fun secs out => some (Pel.buildOutput secs out) := by
+  cases h <;> (
+    funext all out0
+    have hlen : pyLen (all.map fun p => [p]) = (all.length : Int) := by simp [pyLen]
+    simp only [hlen]
+    refine bind_eq_of_sat (pyFor_range_rule all.length (CountsInv all) ?_ _ ?_) ?_
+    · -- first pass
+      intro i counts hi hinv
+      have hget := hinv all[i].1
+      have hstep := CountsInv_step all i hi counts hinv
+      simp only [pyAt?_singletons all i hi, pyKeys, List.map_cons, List.map_nil, pyAt?_zero, pyAt?_one, List.getElem?_cons_zero, Option.pure_def,
+        Option.bind_eq_bind, Option.bind_some, pyDictHas_eq, hget]
+      by_cases h0 : countName all[i].1 (all.take i) = 0
+      all_goals first
+        | (simp [h0] at hstep ⊢; exact hstep)
+        | (simp [h0, Int.add_comm] at hstep ⊢; exact hstep)
+    · exact CountsInv_zero all
+    · intro counts hc
+      refine bind_eq_of_sat (pyFor_range_rule all.length (OutInv all out0) ?_ _ ?_) ?_
+      · -- second pass
+        intro i st hi hinv
+        obtain ⟨out, cts⟩ := st
+        have hinv' := hinv
+        obtain ⟨counters, hrel, hgo⟩ := hinv'
+        have hpos := countName_pos_of_getElem all i hi
+        have hget := hrel all[i].1 hpos
+        simp only [pyAt?_singletons all i hi, pyKeys, List.map_cons, List.map_nil, pyAt?_zero, pyAt?_one, List.getElem?_cons_zero, Option.pure_def,
+          Option.bind_eq_bind, Option.bind_some, hget]
+        by_cases h1 : countName all[i].1 all = 1
+        · have hstep := OutInv_step_once all out0 i hi out cts hinv h1
+          first
+            | (simp [h1, pyDictGet?] at hstep ⊢; exact hstep)
+            | (simp [h1, pyDictGet?, Int.add_comm] at hstep ⊢; exact hstep)
+        · have hstep := OutInv_step_more all out0 i hi out cts counters hrel hgo h1
+          have h1' : ¬ ((countName all[i].1 all : Int) = 1) := by omega
+          have h1'' : ¬ ((1 : Int) = (countName all[i].1 all : Int)) := by omega
+          first
+            | (simp [h1, h1', h1'', pyDictGet?, pyListSet?] at hstep ⊢; exact hstep)
+            | (simp [h1, h1', h1'', pyDictGet?, pyListSet?, Int.add_comm] at hstep ⊢; exact hstep)
+      · exact OutInv_zero all out0 counts hc
+      · intro st hst
+        obtain ⟨out, cts⟩ := st
+        simpa using OutInv_final all out0 _ hst)
+
+/-- C01 numbering (`entries` / ★`numbering_rule`) for the translated `buildOutput`: when the numbered names are new and distinct,
+    the sections are appended to `out` under `numberNames`, the declarative numbering ★`numbering_rule` characterises -/
+theorem buildOutput_numbering (g : List (List (Text × J)) → List (Text × J) → Option (List (Text × J))) (h : Gen.buildOutput? = some g)
+    (secs out : List (Text × J))
+    (hnodup : ((out.map (·.1)) ++ numberNames (secs.map (·.1)) (secs.map (·.1))).Nodup) :
+    g (secs.map fun p => [p]) out = some (out ++ (numberNames (secs.map (·.1)) (secs.map (·.1))).zip (secs.map (·.2))) := by
+  have := congrFun (congrFun (buildOutput g h) secs) out
+  rw [this, buildOutput_eq secs out hnodup]
 
 end Pel.Tie
